@@ -784,6 +784,13 @@ func (s *Sym) evCall(env *Env, x ECall) TV {
 		}
 		m := s.getMap(env.st, "E:"+sortTag(es), "(Array Int "+mapSortOfElem(es)+")")
 		return TV{T: fmt.Sprintf("(select %s (sl-arr %s))", m, a[0].T), S: mapSortOfElem(es)}
+	case "substr": // substr(s, lo, hi): the bytes lo..hi-1 of a string (as the slice expression s[lo:hi])
+		a := argv()
+		t := a[0].T
+		if a[0].S == "Bytes" {
+			t = "(cont " + t + ")"
+		}
+		return TV{T: fmt.Sprintf("(ssub %s %s %s)", t, a[1].T, a[2].T), S: "Str"}
 	case "zeromap": // zeromap(keySort, valSort): the array that maps every key to the zero value
 		if len(x.Args) != 2 {
 			bad("zeromap(keySort, valSort)")
